@@ -1,94 +1,55 @@
 /-
-  Model.Quote — what golua's `string.format("%q", v)` produces today
-  (`quote()` in lib/stringlib/format.go): `strconv.Quote` for strings,
-  `strconv.Itoa` for integers, `1e9999` / `-1e9999` / `(0/0)` and
-  `strconv.FormatFloat(x, 'g', -1, 64)` for floats.
+  Model.Quote — what golua's `string.format("%q", v)` produces (`quote()` and
+  `quoteString()` in lib/stringlib/format.go):
 
-  `strconv.Quote` is mirrored from the Go 1.23 source (`appendQuotedWith`,
-  `appendEscapedRune`, `utf8.DecodeRuneInString`).  `unicode.IsPrint` for
-  code points ≥ 0x80 is a parameter (a table of the Go library); below 0x80
-  it is `0x20..0x7e`.  `FormatFloat` is a parameter as well.
+  * strings, byte by byte: `"` and `\` backslash-escaped; the control characters
+    that have a name as `\a \b \f \n \r \t \v`; the other control characters
+    (and DEL) as decimal escapes, with three digits when a digit follows; every
+    other byte (any byte ≥ 0x80 included) copied;
+  * integers in decimal, `0x8000000000000000` for mininteger;
+  * floats: `1e9999`, `-1e9999`, `(0/0)`, otherwise the shortest decimal text
+    `strconv.FormatFloat(x, 'g', -1, 64)` (a parameter here), with `.0` appended
+    when that text has neither `.` nor `e`.
   Core Lean only.
 -/
 import GoluaVerif.Spec.Quote
 namespace GoluaVerif.Model.Quote
 open GoluaVerif GoluaVerif.Spec.Quote
 
-/-- `utf8.DecodeRuneInString`: (rune, width); invalid input gives (0xFFFD, 1) -/
-def decodeRune (s : Bytes) : Nat × Nat :=
-  let cont (b : UInt8) : Bool := 0x80 ≤ b.toNat && b.toNat ≤ 0xBF
-  match s with
-  | [] => (0xFFFD, 0)
-  | b0 :: t =>
-    let n0 := b0.toNat
-    if n0 < 0x80 then (n0, 1)
-    else if 0xC2 ≤ n0 ∧ n0 ≤ 0xDF then
-      match t with
-      | b1 :: _ => if cont b1 then ((n0 - 0xC0) * 64 + (b1.toNat - 0x80), 2) else (0xFFFD, 1)
-      | _ => (0xFFFD, 1)
-    else if 0xE0 ≤ n0 ∧ n0 ≤ 0xEF then
-      match t with
-      | b1 :: b2 :: _ =>
-        let lo := if n0 = 0xE0 then 0xA0 else 0x80
-        let hi := if n0 = 0xED then 0x9F else 0xBF
-        if lo ≤ b1.toNat ∧ b1.toNat ≤ hi ∧ cont b2 then
-          ((n0 - 0xE0) * 4096 + (b1.toNat - 0x80) * 64 + (b2.toNat - 0x80), 3)
-        else (0xFFFD, 1)
-      | _ => (0xFFFD, 1)
-    else if 0xF0 ≤ n0 ∧ n0 ≤ 0xF4 then
-      match t with
-      | b1 :: b2 :: b3 :: _ =>
-        let lo := if n0 = 0xF0 then 0x90 else 0x80
-        let hi := if n0 = 0xF4 then 0x8F else 0xBF
-        if lo ≤ b1.toNat ∧ b1.toNat ≤ hi ∧ cont b2 ∧ cont b3 then
-          ((n0 - 0xF0) * 262144 + (b1.toNat - 0x80) * 4096 + (b2.toNat - 0x80) * 64 + (b3.toNat - 0x80), 4)
-        else (0xFFFD, 1)
-      | _ => (0xFFFD, 1)
-    else (0xFFFD, 1)
+/-- the name of a control character that has one -/
+def escName (c : UInt8) : Option UInt8 :=
+  if c = 7 then some 97 else if c = 8 then some 98 else if c = 12 then some 102 else if c = 10 then some 110
+  else if c = 13 then some 114 else if c = 9 then some 116 else if c = 11 then some 118 else none
 
-def lowerhex (n : Nat) : UInt8 := hexDigit n
+/-- body of `quoteString` -/
+def quoteStrBody : Bytes → Bytes
+  | [] => []
+  | c :: rest =>
+    (if c = 34 ∨ c = 92 then [92, c]
+     else match escName c with
+       | some e => [92, e]
+       | none =>
+         if 32 ≤ c.toNat ∧ c.toNat ≠ 127 then [c]
+         else match rest with
+           | d :: _ => if isDigit d then 92 :: dec3 c else 92 :: dec c
+           | [] => 92 :: dec c) ++ quoteStrBody rest
 
-/-- `appendEscapedRune` for a rune that `IsPrint` rejected (or `"` / `\`) -/
-def escapeRune (r : Nat) : Bytes :=
-  if r = 34 ∨ r = 92 then [92, UInt8.ofNat r]
-  else if r = 7 then [92, 97] else if r = 8 then [92, 98] else if r = 12 then [92, 102]
-  else if r = 10 then [92, 110] else if r = 13 then [92, 114] else if r = 9 then [92, 116]
-  else if r = 11 then [92, 118]
-  else if r < 32 ∨ r = 127 then [92, 120, lowerhex (r / 16), lowerhex r]
-  else if r < 0x10000 then [92, 117] ++ toHexF 4 r
-  else [92, 85] ++ toHexF 8 r
+/-- `quoteString(s)` -/
+def quoteStr (s : Bytes) : Bytes := 34 :: (quoteStrBody s ++ [34])
 
-/-- is the rune printed as itself?  ASCII: 0x20..0x7e except `"` and `\`; above: the parameter -/
-def printsRaw (isPrint : Nat → Bool) (r : Nat) : Bool :=
-  if r = 34 ∨ r = 92 then false
-  else if r < 0x80 then decide (32 ≤ r ∧ r ≤ 126)
-  else isPrint r
+/-- `%q` of an integer -/
+def quoteInt (v : I64) : Bytes :=
+  if v = I64.minInt then [48, 120] ++ toHexF 16 (2 ^ 63) else showInt v
 
-/-- body of `strconv.Quote`; `fuel` ≥ length of the input -/
-def quoteGoBody (isPrint : Nat → Bool) : Nat → Bytes → Bytes
-  | 0, _ => []
-  | _, [] => []
-  | fuel + 1, b0 :: t =>
-    let (r, w) := decodeRune (b0 :: t)
-    if w = 1 ∧ r = 0xFFFD then
-      [92, 120, lowerhex (b0.toNat / 16), lowerhex b0.toNat] ++ quoteGoBody isPrint fuel t
-    else if printsRaw isPrint r then
-      (b0 :: t).take w ++ quoteGoBody isPrint fuel ((b0 :: t).drop w)
-    else escapeRune r ++ quoteGoBody isPrint fuel ((b0 :: t).drop w)
+/-- `.0` is appended to a decimal text that looks like an integer -/
+def floatMark (t : Bytes) : Bytes := if t.any (fun c => c = 46 || c = 101) then t else t ++ [46, 48]
 
-/-- `strconv.Quote(s)` -/
-def quoteGo (isPrint : Nat → Bool) (s : Bytes) : Bytes :=
-  34 :: (quoteGoBody isPrint s.length s ++ [34])
-
-/-- `%q` of an integer in golua: `strconv.Itoa` -/
-def quoteInt (v : I64) : Bytes := showInt v
-
-/-- `%q` of a float in golua; `fmtG` stands for `strconv.FormatFloat(x, 'g', -1, 64)` -/
+/-- `%q` of a float; `fmtG` stands for `strconv.FormatFloat(x, 'g', -1, 64)` -/
 def quoteFloat (fmtG : F64 → Bytes) (f : F64) : Bytes :=
   match f with
   | .nan => [40, 48, 47, 48, 41]
   | .inf false => [49, 101, 57, 57, 57, 57]
   | .inf true => [45, 49, 101, 57, 57, 57, 57]
-  | f => fmtG f
+  | f => floatMark (fmtG f)
 
 end GoluaVerif.Model.Quote
